@@ -25,19 +25,19 @@ CLAIMED = {
             "Trusts the transcription R2 (HH part cross-checked against NEURON 9 compiled hh mechanism in setup.sh; Pospischil/Abbott-Marder part from the papers only). Known finding F12 (CaT tau_u above -20 mV) is reported as KNOWN-FINDING.",
             "DESIGN.md section 4 C04"),
     "C05": ("finite-difference oracle (central differences, float64, three step sizes) against jit(grad) through integrate; forward- vs reverse-mode cross-check",
-            "Exploration: for randomly generated active models every component of jax.grad of a simulated loss is compared with converged central finite differences of the same jitted loss; trainables cover channel and synapse parameters, radius, length, axial resistivity, capacitance, initial voltage and gate states, a data-fed stimulus amplitude and a data_set value, shared per compartment/branch/cell/group with unequal group sizes, alone (single-family cases) and combined, over solvers x backends x checkpoint layouts; jvp against vjp along random directions.",
+            "Exploration: for randomly generated active models every component of jax.grad of a simulated loss is compared with converged central finite differences of the same jitted loss; trainables cover channel and synapse parameters, radius, length, axial resistivity, capacitance, initial voltage and gate states, initial voltages placed exactly on the removable singularities of the rate functions (a non-finite gradient of a finite loss is a violation), a data-fed stimulus amplitude and a data_set value, shared per compartment/branch/cell/group with unequal group sizes, alone (single-family cases) and combined, over solvers x backends x checkpoint layouts; jvp against vjp along random directions.",
             "Differentiable points only; FD noise floor 1e-7 relative, acceptance 2e-5 relative.",
             "DESIGN.md section 4 C05"),
     "C06": ("differential monitor over execution modes (eager/jit/vmap/checkpoint/retrace) + purity snapshots of module and caller-owned inputs + bit-identity of repeated calls",
-            "Exploration: one simulation per case is executed by the default path, repeatedly, under jax.jit (twice), after a previous trace (jit then jit(grad) of a view-creating function), under jax.disable_jit, under vmap over stimuli and over parameters (vs a python loop) and with checkpoint layouts of depth 1-3 (product = and > steps); outputs must agree to 1e-8, repeats bit-identically; module tables, inputs, recordings, trainables, groups and the caller's param_state are snapshotted before/after every call and must not change.",
+            "Exploration: one simulation per case is executed by the default path, repeatedly, under jax.jit (twice), after a previous trace (jit then jit(grad) of a view-creating function), under jax.disable_jit, under vmap over stimuli and over parameters (vs a python loop) and with checkpoint layouts of depth 1-3 (product = and > steps; a layout that raises while the plain call succeeds is a violation), for models with static, data-fed, mixed and no inputs at all; outputs must agree to 1e-8, repeats bit-identically; module tables, inputs, recordings, trainables, groups and the caller's param_state are snapshotted before/after every call and must not change.",
             "jaxnodes/jaxedges are caches and are not compared, but a later transformation failing because of them is a violation (mode retrace).",
             "DESIGN.md section 4 C06"),
     "C07": ("differential monitor over split/continued/manual-stepped runs + direct state monitor (returned all_states vs last recorded column) over checkpoint layouts",
-            "Exploration: N-step runs of active models (all recordable states recorded, trainable initial states in half of the cases) are compared with the same run split into 2-4 pieces chained through return_states/all_states (stimulus tail via data_stimulate), with manual init_fn/step_fn stepping, and the returned state dict is compared entry by entry with the last returned column for checkpoint layouts with product = and > N. Known finding F6 is reported as KNOWN-FINDING.",
+            "Exploration: N-step runs of active models (all recordable states recorded, trainable initial states in half of the cases) are compared with the same run split into 2-4 pieces chained through return_states/all_states (stimulus tail via data_stimulate), with manual init_fn/step_fn stepping (the dictionaries handed to each eager step must come back unchanged; numerically unstable reference runs are skipped), and the returned state dict is compared entry by entry with the last returned column for checkpoint layouts with product = and > N. Known finding F6 is reported as KNOWN-FINDING.",
             "The one-call run is the reference for the pieces; tolerance 1e-9 relative.",
             "DESIGN.md section 4 C07"),
     "C08": ("offline checker over the harness's call log: multi-step R1 reference for passive networks; unique-value tagging for row identity; clamp-hold, t_max and data-route identities; JAX checkify index sanitizer",
-            "Exploration: random interleavings of record/stimulate/clamp calls on random views; (A) channel-free capacitor networks: the whole output matrix is compared with a reference driven by the log of requested inputs (row order, time alignment, target compartment, additivity, charge), t_max padding/truncation and data_stimulate equivalence; (B) HH/K + three interleaved synapse types with a unique value in every state: column 0 identifies what each row really reads (compartment states, channel currents, synaptic states and currents), clamps (incl. repeated and data_clamp) hold their samples; checkify(index_checks) on the thomas backend as supplementary sanitizer.",
+            "Exploration: random interleavings of record/stimulate/clamp calls on random views; (A) channel-free capacitor networks: the whole output matrix is compared with a reference driven by the log of requested inputs (row order, time alignment, target compartment, additivity, charge), t_max padding/truncation and data_stimulate equivalence; (B) HH/K + three interleaved synapse types with a unique value in every state: column 0 identifies what each row really reads (compartment states, channel currents, synaptic states and currents), clamps (incl. repeated and data_clamp) hold their samples; externals/external_inds stay consistent after every accepted stimulate/clamp; checkify(index_checks) on the thomas backend as supplementary sanitizer.",
             "R1 as reference for passive cases; row i of a stimulus goes to the i-th compartment of the view as shown by view.nodes.",
             "DESIGN.md section 4 C08"),
     "C09": ("reference-model monitor: independent synaptic reference simulator (Abbott-Marder closed form + absolute point currents in the R1 system) over recorded voltages; order/zero-conductance differentials",
@@ -45,23 +45,23 @@ CLAIMED = {
             "Scheme-ambiguity set for the secant of pre-voltage dependent currents; passive membranes so that the step is linear.",
             "DESIGN.md section 4 C09"),
     "C10": ("reference-model monitor (R4 scatter with unique-value tagging) over get_all_parameters/get_all_states/write_trainables + three-route differential simulation",
-            "Exploration: after sequences of make_trainable calls on views reached by random selection chains (views that exclude the module's last row, shared parameters over groups of unequal size, node keys, edge keys, initial states) the parameter and state arrays actually used for simulation must equal the reference scatter computed from the independent view model, every unselected row keeping its uniquely tagged table value; write_trainables must store exactly those arrays; set / data_set / make_trainable+params must give identical arrays and simulations.",
+            "Exploration: after sequences of make_trainable calls on views reached by random selection chains (views that exclude the module's last row, shared parameters over groups of unequal size, node keys, edge keys, initial states) the parameter and state arrays actually used for simulation must equal the reference scatter computed from the independent view model, every unselected row keeping its uniquely tagged table value, and every array of get_all_parameters (incl. axial conductances, stone and sparse) must equal that of a copy whose tables hold the same values; directed cases: padded index arrays as large as the module, permuted full covers, 12-32 interleaved synapses with one run-time parameter per edge; write_trainables must store exactly those arrays; set / data_set / make_trainable+params must give identical arrays and simulations.",
             "Trusts the sharing rule stated in DESIGN.md (last selection step decides the grouping) and R4.",
             "DESIGN.md section 4 C10"),
     "C11": ("reference-model monitor (pure-python view model R4) after every step of random selection chains + invariant at a hook (base-table diff after each mutator through a view)",
-            "Exploration: random chains (depth <=4) over cell/branch/comp/loc/edge/select/group/channel/synapse-name with all index forms and scope switches on irregular networks, cells and branches; after every step node/edge label sets and local index columns are compared with R4; lazy [] indexing and iteration against the method form; a mutator (set, insert, record, stimulate, clamp, add_to_group, move, edge set) is applied through the final view and every base table must be unchanged outside (selected rows x touched columns).",
+            "Exploration: random chains (depth <=4) over cell/branch/comp/loc/edge/select/group/channel/synapse-name with all index forms (slices with global labels on strict sub-views emphasised) and scope switches on irregular networks, cells and branches; after every step node/edge label sets and local index columns are compared with R4; lazy [] indexing and iteration against the method form; a mutator (set, insert, record, stimulate, clamp, add_to_group, move, edge set) is applied through the final view and every base table must be unchanged outside (selected rows x touched columns).",
             "Negative slice bounds and boolean masks on views whose index values are not 0..n-1 are outside the checked domain; known finding F20 reported as KNOWN-FINDING.",
             "DESIGN.md section 4 C11"),
     "C15": ("analytic-oracle monitor on refinement ladders (cable theory closed forms; exact eigenmodes of the semi-discrete cable)",
-            "Exploration: observed convergence orders on finite ladders (ncomp 4..64, dt0/2^k) against sealed-cable steady state (one branch, two branches with equal and unequal compartment lengths), exact eigenmode relaxation and RC relaxation, for all schemes and backends, with an absolute error bound at the finest level that fixes the units.",
+            "Exploration: observed convergence orders on finite ladders (ncomp 4..64, dt0/2^k) against sealed-cable steady state (one branch, two branches with equal and unequal compartment lengths; a graded 1:3 grid inside one branch judged on convergence only), exact eigenmode relaxation and RC relaxation, for all schemes and backends, with an absolute error bound at the finest level that fixes the units.",
             "Bounded restatement of 'converges in the limit': order windows on a finite ladder.",
             "DESIGN.md section 4 C15"),
     "C12": ("table-equality monitor against constituents built alone + differential simulations (alone vs assembled, sibling permutations)",
-            "Exploration: compartments with different channel sets (shared parameter names holding different values), geometry and states are assembled into branches, cells and networks; every assembled row must equal the constituent's row with absent parameters NaN and absent channels False under contiguous hierarchical indices, the channel registry must be the union; networks without synapses vs cells alone, one-branch cells vs branches, one-compartment branches vs compartments; hostile sibling relabellings (parents of later branches listed first) must only permute results.",
+            "Exploration: compartments with different channel sets (shared parameter names holding different values), geometry and states are assembled into branches, cells and networks; every assembled row must equal the constituent's row with absent parameters NaN and absent channels False under contiguous hierarchical indices, the channel registry must be the union; networks without synapses vs cells alone (on jax.sparse, and on jaxley.stone/thomas for networks of different-depth cells with one compartment count and of equal irregular morphology), one-branch cells vs branches, one-compartment branches vs compartments; hostile sibling relabellings (parents of later branches listed first) must only permute results.",
             "A compartment built and edited on its own is the specification of its row.",
             "DESIGN.md section 4 C12"),
     "C13": ("invariant monitor after each set_ncomp + differential against direct construction (tables, 3 backends) + R5 radius profile for SWC cells",
-            "Exploration: sequences of branch(i).set_ncomp(n) on hand-built cells (per-branch properties, cell-wide and per-branch channels, whole-branch groups) and generated SWC cells: branch length/properties/channels kept, other branches and connectivity unchanged, branch membership of groups unchanged, tables and simulations (stone, thomas, sparse) equal to a cell built directly with the final counts, SWC radius profile equal to the independent interpolation at the new centres.",
+            "Exploration: sequences of branch(i).set_ncomp(n) on hand-built cells (per-branch properties, cell-wide and per-branch channels, whole-branch groups) and generated SWC cells, half of them simulated before the first set_ncomp: branch length/properties/channels kept, other branches and connectivity unchanged, branch membership of groups unchanged, tables and simulations (stone, thomas, sparse) equal to a cell built directly with the final counts (incl. the parameter sharing make_trainable creates afterwards), SWC radius profile equal to the independent interpolation at the new centres.",
             "Refusals of set_ncomp (heterogeneous branches, single-compartment branches with channels) are counted, not judged.",
             "DESIGN.md section 4 C13"),
     "C16": ("reference-model monitor: independent SWC interpreter R5 over generated files",
@@ -69,7 +69,7 @@ CLAIMED = {
             "Conventions are those documented in docstrings/comments; the convention-free subset is what is independent.",
             "DESIGN.md section 4 C16"),
     "C18": ("equality + object-graph aliasing monitor over pickle/deepcopy copies of modules from random histories; independence under edits",
-            "Exploration: modules from random construction/editing histories (hand-built incl. parent-shorter-than-level cells, SWC cells with single/multi-point somata, networks with synapses, groups, trainables, clamps, after integrate / set_ncomp, views) are copied by pickle and deepcopy: tables and attributes equal, simulation and gradient bit-identical, no mutable object shared between the object graphs, editing the copy through the public API leaves the original's snapshot and simulation unchanged.",
+            "Exploration: modules from random construction/editing histories (hand-built incl. parent-shorter-than-level cells, SWC cells with single/multi-point somata, networks with synapses, groups, trainables, clamps, after integrate / set_ncomp, views) are copied by pickle and deepcopy: tables and attributes equal, simulation and gradient bit-identical, no mutable object shared between the object graphs (walk through every jaxley object; a walk that visits fewer than 8 objects is skipped, not held), mechanism instance state incl. a channel renamed after construction, editing the copy leaves the original unchanged and editing the original (incl. set_ncomp on a branch with children) leaves an earlier copy unchanged.",
             "jax arrays are immutable and may be shared; jaxnodes/jaxedges caches excluded.",
             "DESIGN.md section 4 C18"),
     "C19": ("invariant at a hook (table invariants R6 after every accepted public mutator) + offline reference simulation R3 of the final tables; exhaustive bounded histories + random histories",
@@ -77,11 +77,11 @@ CLAIMED = {
             "R3 encodes jaxley's documented operator splitting; trainable values are scattered into the reference tables by their public index arrays.",
             "DESIGN.md section 4 C19"),
     "C14": ("fixed-point and reference-model monitors on .nodes after init_states()",
-            "Exploration: after init_states() on randomly built modules with partial, renamed and multiple channel insertions and per-compartment voltages (incl. singular ones) and parameters, every gate must be a fixed point of the channel's own update for dt in {0.025,1,1000}, equal R2's steady state, and nothing outside (channel rows x gate columns) may change.",
+            "Exploration: after init_states() on randomly built modules (top-down, and bottom-up from compartments that already carry channels sharing a current name) with partial, renamed and multiple channel insertions and per-compartment voltages (incl. singular ones) and parameters, every gate must be a fixed point of the channel's own update for dt in {0.025,1,1000}, equal R2's steady state, and nothing outside (channel rows x gate columns) may change.",
             "Trusts R2 steady states and the channel's own update_states as the definition of 'fixed point'.",
             "DESIGN.md section 4 C14"),
     "C17": ("runtime contracts (icontract) on forward() for bounds + exact-arithmetic (mpmath) round-trip/monotonicity oracles + jit/leafwise differential",
-            "Exploration: bounds postconditions fire on every concrete forward call; round trips in both directions are judged against the exact sigmoid/softplus with the unavoidable conditioning error of the exact inverse as tolerance (exempt only where the exact value rounds onto a bound); monotonicity on sorted batches; ParamTransform must touch exactly its own leaf; jit == eager where well conditioned.",
+            "Exploration: bounds postconditions fire on every concrete forward call; round trips in both directions are judged against the exact sigmoid/softplus with the unavoidable conditioning error of the exact inverse as tolerance (exempt only where the exact value rounds onto a bound); monotonicity on sorted batches that include 1 ulp .. 3e-8 neighbourhoods of round branch-switch values; ParamTransform must touch exactly its own leaf; jit == eager where well conditioned.",
             "Declared bounds are the constructor arguments as documented. The interval-analysis proof named in the quantifier is another technique family and is not attempted.",
             "DESIGN.md section 4 C17"),
     "C20": ("definition-based monitor over .edges after each builder call, many seeds per configuration, exhaustive small boolean matrices",
